@@ -89,49 +89,29 @@ type codeIdentifierRegex struct {
 // @ensures cid.computedRegexs == null || cid.computedRegexs.(*) != null
 // TODO improve error handling
 func compileRegexes(cid CodeIdentifier) CodeIdentifier {
-	contextRegex, err := regexp.Compile(cid.Context)
-	if err != nil {
-		fmt.Printf("[WARN] failed to compile context regex %v: %v\n", cid.Context, err)
-	}
-	packageRegex, err := regexp.Compile(cid.Package)
-	if err != nil {
-		fmt.Printf("[WARN] failed to compile package regex %v: %v\n", cid.Package, err)
-	}
-	interfaceRegex, err := regexp.Compile(cid.Interface)
-	if err != nil {
-		fmt.Printf("[WARN] failed to compile interface regex %v: %v\n", cid.Interface, err)
-	}
-	typeRegex, err := regexp.Compile(cid.Type)
-	if err != nil {
-		fmt.Printf("[WARN] failed to compile type regex %v: %v\n", cid.Type, err)
-	}
-	methodRegex, err := regexp.Compile(cid.Method)
-	if err != nil {
-		fmt.Printf("[WARN] failed to compile method regex %v: %v\n", cid.Method, err)
-	}
-	fieldRegex, err := regexp.Compile(cid.Field)
-	if err != nil {
-		fmt.Printf("[WARN] failed to compile field regex %v: %v\n", cid.Field, err)
-	}
-	receiverRegex, err := regexp.Compile(cid.Receiver)
-	if err != nil {
-		fmt.Printf("[WARN] failed to compile receiver regex %v: %v\n", cid.Receiver, err)
-	}
-	valueMatchRegex, err := regexp.Compile(cid.ValueMatch)
-	if err != nil {
-		fmt.Printf("[WARN] failed to compile value match regex %v: %v\n", cid.ValueMatch, err)
-	}
 	cid.computedRegexs = &codeIdentifierRegex{
-		contextRegex,
-		packageRegex,
-		interfaceRegex,
-		typeRegex,
-		methodRegex,
-		fieldRegex,
-		receiverRegex,
-		valueMatchRegex,
+		compileRegexOrLiteral("context", cid.Context),
+		compileRegexOrLiteral("package", cid.Package),
+		compileRegexOrLiteral("interface", cid.Interface),
+		compileRegexOrLiteral("type", cid.Type),
+		compileRegexOrLiteral("method", cid.Method),
+		compileRegexOrLiteral("field", cid.Field),
+		compileRegexOrLiteral("receiver", cid.Receiver),
+		compileRegexOrLiteral("value match", cid.ValueMatch),
 	}
 	return cid
+}
+
+// compileRegexOrLiteral compiles expr into a regex. An expression that is not a valid regular expression is matched
+// literally (with a warning), so that the result is never nil.
+// @ensures result != null
+func compileRegexOrLiteral(what string, expr string) *regexp.Regexp {
+	r, err := regexp.Compile(expr)
+	if err != nil {
+		fmt.Printf("[WARN] failed to compile %s regex %v: %v (it will be matched literally)\n", what, expr, err)
+		return regexp.MustCompile(regexp.QuoteMeta(expr))
+	}
+	return r
 }
 
 // equalOnNonEmptyFields returns true if each of the receiver's fields are either equal to the corresponding
